@@ -801,9 +801,190 @@ def gen_lens():
     return 'GridLens.lean', '\n'.join(lines), echo
 
 
-GENERATORS = [gen, gen_methods, gen_lens]
+# ------------------------------------------------------------------ statement ORDER of set_input / __init__ (failure paths)
+# For every coherence analyzer: the body of `set_input` as a list of Nitime.CohSession.Stmt (writes to self.method['Fs'] /
+# self.input, reset(), possible raises, in source order; `BaseAnalyzer.set_input(self, input)` inlined from analysis/base.py),
+# and the order of {possible raise, write into self.method} in `__init__`.  A write that precedes a possible raise is a
+# generated FACT which the side condition of `session_reads` / `refused_ctor_leaves_callers_dict` forbids.
+SETINPUT_CLASSES = [('coherence', 'CoherenceAnalyzer'), ('sparse', 'SparseCoherenceAnalyzer')]        # the classes with a `method['Fs']` slot and a set_input
+CTOR_CLASSES = SETINPUT_CLASSES + [('seed', 'SeedCoherenceAnalyzer')]
+
+
+def _is_self_attr(node, attr):
+    return isinstance(node, ast.Attribute) and node.attr == attr and isinstance(node.value, ast.Name) and node.value.id == 'self'
+
+
+def _class_def(tree, cls):
+    for node in ast.walk(tree):
+        if isinstance(node, ast.ClassDef) and node.name == cls:
+            return node
+    return None
+
+
+def _raising_methods(cdef):
+    """names of the methods of the class whose body contains a `raise` (validators)"""
+    out = set()
+    for sub in (cdef.body if cdef is not None else []):
+        if isinstance(sub, ast.FunctionDef) and any(isinstance(n, ast.Raise) for n in ast.walk(sub)):
+            out.add(sub.name)
+    return out
+
+
+def _is_validator_call(st, validators):
+    return isinstance(st, ast.Expr) and isinstance(st.value, ast.Call) and isinstance(st.value.func, ast.Attribute) \
+        and isinstance(st.value.func.value, ast.Name) and st.value.func.value.id == 'self' and st.value.func.attr in validators
+
+
+def _only_locals(stmts):
+    """statements that bind plain local names only (building an error message, …)"""
+    for st in stmts:
+        if isinstance(st, ast.Assign) and all(isinstance(t, ast.Name) for t in st.targets):
+            continue
+        if isinstance(st, ast.AugAssign) and isinstance(st.target, ast.Name):
+            continue
+        return False
+    return True
+
+
+def _src_of(e, arg, saved):
+    """<e>.sampling_rate / self.input = <e>: which series"""
+    if isinstance(e, ast.Name) and e.id == arg:
+        return 'new'
+    if _is_self_attr(e, 'input'):
+        return 'held'
+    if isinstance(e, ast.Name) and e.id in saved:
+        return 'saved'
+    return None
+
+
+def _setinput_stmts(fn, base_prog, validators):
+    arg = fn.args.args[1].arg if len(fn.args.args) > 1 else 'input'
+    out, saved = [], set()
+    for i, st in enumerate(fn.body):
+        if i == 0 and isinstance(st, ast.Expr) and isinstance(st.value, ast.Constant) and isinstance(st.value.value, str):
+            continue
+        if isinstance(st, ast.Pass):
+            continue
+        # BaseAnalyzer.set_input(self, input) / super().set_input(input)
+        if isinstance(st, ast.Expr) and isinstance(st.value, ast.Call) and isinstance(st.value.func, ast.Attribute) and st.value.func.attr == 'set_input':
+            f, a = st.value.func, st.value.args
+            direct = isinstance(f.value, ast.Name) and f.value.id == 'BaseAnalyzer' and len(a) == 2 and isinstance(a[1], ast.Name) and a[1].id == arg
+            sup = isinstance(f.value, ast.Call) and isinstance(f.value.func, ast.Name) and f.value.func.id == 'super' and len(a) == 1 \
+                and isinstance(a[0], ast.Name) and a[0].id == arg
+            out += list(base_prog) if (direct or sup) and base_prog is not None else ['.unknown']
+            continue
+        if isinstance(st, ast.Expr) and isinstance(st.value, ast.Call) and _is_self_attr(st.value.func, 'reset') and not st.value.args:
+            out.append('.reset')
+            continue
+        if _is_validator_call(st, validators):
+            out.append('.check')
+            continue
+        if isinstance(st, ast.Raise):
+            out.append('.check')
+            continue
+        if isinstance(st, ast.Assign) and len(st.targets) == 1:
+            t = st.targets[0]
+            if _is_self_attr(t, 'input'):
+                src = _src_of(st.value, arg, saved)
+                out.append('.setInput .%s' % src if src else '.unknown')
+                continue
+            if isinstance(t, ast.Name):
+                if _is_self_attr(st.value, 'input'):
+                    saved.add(t.id)
+                    out.append('.save')
+                # any other local binding: no effect on the analyzer
+                continue
+        if isinstance(st, ast.If):
+            # if self._Fs_from_input: self.method['Fs'] = X.sampling_rate
+            if _is_self_attr(st.test, '_Fs_from_input') and not st.orelse and len(st.body) == 1 and isinstance(st.body[0], ast.Assign) \
+                    and len(st.body[0].targets) == 1 and isinstance(st.body[0].targets[0], ast.Subscript) \
+                    and _is_self_method(st.body[0].targets[0].value) and isinstance(st.body[0].targets[0].slice, ast.Constant) \
+                    and st.body[0].targets[0].slice.value == 'Fs' and isinstance(st.body[0].value, ast.Attribute) and st.body[0].value.attr == 'sampling_rate':
+                src = _src_of(st.body[0].value.value, arg, saved)
+                out.append('.writeFs .%s' % src if src else '.unknown')
+                continue
+            # if self._Fs_from_input: self.method = dict(self.method, Fs=X.sampling_rate)     (the slot is rewritten in a dict of the analyzer's own)
+            if _is_self_attr(st.test, '_Fs_from_input') and not st.orelse and len(st.body) == 1 and isinstance(st.body[0], ast.Assign) \
+                    and len(st.body[0].targets) == 1 and _is_self_method(st.body[0].targets[0]) and isinstance(st.body[0].value, ast.Call) \
+                    and isinstance(st.body[0].value.func, ast.Name) and st.body[0].value.func.id == 'dict' and len(st.body[0].value.args) == 1 \
+                    and _is_self_method(st.body[0].value.args[0]) and len(st.body[0].value.keywords) == 1 and st.body[0].value.keywords[0].arg == 'Fs' \
+                    and isinstance(st.body[0].value.keywords[0].value, ast.Attribute) and st.body[0].value.keywords[0].value.attr == 'sampling_rate':
+                src = _src_of(st.body[0].value.keywords[0].value.value, arg, saved)
+                out.append('.writeFs .%s' % src if src else '.unknown')
+                continue
+            raises = any(isinstance(n, ast.Raise) for n in ast.walk(st))
+            if raises and not st.orelse and isinstance(st.body[-1], ast.Raise) and _only_locals(st.body[:-1]):
+                out.append('.check')
+                continue
+            out.append('.unknown')
+            if raises:
+                out.append('.check')
+            continue
+        out.append('.unknown')
+    return out
+
+
+def _ctor_stmts(stmts, validators, out):
+    for st in stmts:
+        if isinstance(st, ast.Raise):
+            out.append('.check')
+        elif _is_validator_call(st, validators):
+            out.append('.check')
+        elif isinstance(st, (ast.If, ast.For, ast.While, ast.With, ast.Try)):
+            for part in ('body', 'orelse', 'handlers', 'finalbody'):
+                sub = getattr(st, part, None) or []
+                sub = [h for h in sub] if part != 'handlers' else [x for h in sub for x in h.body]
+                _ctor_stmts(sub, validators, out)
+        else:
+            w = False
+            for n in ast.walk(st):
+                if isinstance(n, (ast.Assign, ast.AugAssign)):
+                    for t in (n.targets if isinstance(n, ast.Assign) else [n.target]):
+                        if isinstance(t, ast.Subscript) and _is_self_method(t.value):
+                            w = True
+                if isinstance(n, ast.Call) and isinstance(n.func, ast.Attribute) and _is_self_method(n.func.value) \
+                        and n.func.attr in ('update', 'setdefault', 'pop', 'clear', 'popitem', '__setitem__'):
+                    w = True
+            if w:
+                out.append('.writeMethod')
+    return out
+
+
+def gen_setinput():
+    coh = T.parse('nitime/analysis/coherence.py')
+    base_tree = T.parse('nitime/analysis/base.py')
+    echo = {}
+    base_fn = T.find_func(base_tree, 'set_input', 'BaseAnalyzer')
+    base = _setinput_stmts(base_fn, None, set()) if base_fn is not None else ['.unknown']
+    echo['BaseAnalyzer.set_input'] = base
+    lines = ['-- GENERATED by harness/translate_c05.py (gen_setinput) from analysis/coherence.py and analysis/base.py. DO NOT EDIT.',
+             'import Nitime.Model.CohSession', 'namespace Nitime.Generated.SetInput', 'open Nitime.CohSession', '',
+             '/-- `BaseAnalyzer.set_input` -/', 'def base : List Stmt := [%s]' % ', '.join(base), '']
+    names = []
+    for lean, cls in SETINPUT_CLASSES:
+        cdef = _class_def(coh, cls)
+        fn = T.find_func(coh, 'set_input', cls)
+        prog = list(base) if fn is None else _setinput_stmts(fn, base, _raising_methods(cdef))
+        echo['%s.set_input' % cls] = {'own_definition': fn is not None, 'statements': prog}
+        lines += ['/-- `%s.set_input`%s -/' % (cls, '' if fn is not None else ' (inherited from BaseAnalyzer)'),
+                  'def %s : List Stmt := [%s]' % (lean, ', '.join(prog)), '']
+        names.append(lean)
+    for lean, cls in CTOR_CLASSES:
+        cdef = _class_def(coh, cls)
+        fn = T.find_func(coh, '__init__', cls)
+        prog = _ctor_stmts(fn.body, _raising_methods(cdef), []) if fn is not None else []
+        echo['%s.__init__' % cls] = prog
+        lines += ['/-- `%s.__init__`: possible raises and writes into `self.method`, in source order -/' % cls,
+                  'def %sCtor : List CStmt := [%s]' % (lean, ', '.join(prog)), '']
+    lines += ['def programs : List (String × List Stmt) := [%s]' % ', '.join('("%s", %s)' % (n, n) for n in names), '',
+              'end Nitime.Generated.SetInput', '']
+    return 'SetInput.lean', '\n'.join(lines), echo
+
+
+GENERATORS = [gen, gen_methods, gen_lens, gen_setinput]
 
 if __name__ == '__main__':
     print(gen()[1])
     print(gen_methods()[1])
     print(gen_lens()[1])
+    print(gen_setinput()[1])
